@@ -236,6 +236,9 @@ static void GC_Rem_Ptr(struct GC* gc, var ptr) {
   
   if (gc->nslots is 0) { return; }
   
+  /* (entries of the list that have been dealt with are NULL: NULL is no object) */
+  if (ptr is NULL) { return; }
+  
   for (size_t i = 0; i < gc->freenum; i++) {
     if (gc->freelist[i] is ptr) {
       gc->freelist[i] = NULL;
